@@ -302,7 +302,7 @@ async fn stall(a: &[String]) -> Vec<String> {
                     let b = match pos.as_str() {
                         "nobyte" => vec![],
                         "partial" => pre[..1].to_vec(),
-                        "full_silence" => pre,
+                        "full_silence" | "unread_full" => pre,
                         _ => {
                             // unread
                             let mut b = pre;
@@ -313,7 +313,8 @@ async fn stall(a: &[String]) -> Vec<String> {
                     (uni_kind, b, false)
                 }
             };
-            let unread = *item == StallItem::Stalled && pos == "unread";
+            let unread = *item == StallItem::Stalled && (pos == "unread" || pos == "unread_full");
+            let fill = *item == StallItem::Stalled && pos == "unread_full";
             let mut send = if uni {
                 let s = client.open_uni().await?;
                 if unread {
@@ -330,6 +331,17 @@ async fn stall(a: &[String]) -> Vec<String> {
                 s
             };
             raw::write_pieces(&mut send, &[bytes], 0).await?;
+            if fill {
+                // unread data up to the stream's flow-control window: write until quinn accepts no more
+                let chunk = vec![0x55u8; 64 * 1024];
+                for _ in 0..1024 {
+                    match tokio::time::timeout(Duration::from_millis(250), send.write(&chunk)).await {
+                        Err(_) => break,
+                        Ok(Ok(_)) => {}
+                        Ok(Err(e)) => return Err(format!("fill:{e}")),
+                    }
+                }
+            }
             if fin {
                 send.finish().map_err(|_| "finish:closed".to_string())?;
             }
@@ -1007,7 +1019,10 @@ fn gen_c07(thorough: bool, rng: &mut Rng, emit: &mut dyn FnMut(&str, Vec<String>
     if thorough {
         for kind in kinds {
             for k in ks {
-                for pos in poss {
+                for pos in poss.iter().copied().chain(["unread_full"]) {
+                    if pos == "unread_full" && k > 3 {
+                        continue;
+                    }
                     for order in orders {
                         for rt in RTS {
                             emit("stall", vec![s(rt), s(kind), s(k), s(pos), s(order)]);
@@ -1025,6 +1040,14 @@ fn gen_c07(thorough: bool, rng: &mut Rng, emit: &mut dyn FnMut(&str, Vec<String>
         }
     };
     // every kind × k × pos once; order and runtime rotate (seed-dependent start)
+    // unread data up to the flow-control window of the stream
+    for kind in kinds {
+        for k in [1usize, 2] {
+            for rt in RTS {
+                put(emit, vec![s(rt), s(kind), s(k), s("unread_full"), s(orders[k % 3])]);
+            }
+        }
+    }
     let mut rot = rng.below(6) as usize;
     for kind in kinds {
         for k in ks {
